@@ -146,7 +146,7 @@ Proof. vm_compute. reflexivity. Qed.
 Lemma rt_window_In r c e x y : - e <= x < c + e -> - e <= y < r + e -> In (x, y) (rt_window r c e).
 Proof.
   intros Hx Hy. unfold rt_window. apply in_flat_map. exists y. split; [apply rc_range_In; lia|].
-  apply in_map. apply rc_range_In. lia.
+  apply in_map_iff. exists x. split; [reflexivity|]. apply rc_range_In. lia.
 Qed.
 Theorem rottoric_paths_upto_8 : forall rows cols ax ay bx by_,
   2 <= rows <= 8 -> rows mod 2 = 0 -> 2 <= cols <= 8 -> cols mod 2 = 0 ->
